@@ -169,6 +169,45 @@ def extra_tus(tier, seed, table):
         for m, d in enumerate(ds):
             el.append('wcvt_elastic<%s, %d, %s, %s>(rng);' % (TAGS[tags3[(j + m + seed) % 3]], ed, n, CT[d]))
     res.append(dict(name='%s_wcvt_elastic' % table, src=_tu(table, 1190, el), compiler='g++', defines=['CNL_VERIF_OVERFLOW_PATH=1']))
+    # -- cnl::constant<V> sources (tagged convert functor and overflow_integer constructor): constants of every built-in
+    #    integer type of 32..128 bits (the types literals and `_c` have), every destination type, every tag; the limits of the
+    #    destination and their neighbours, -1, the limits of the constant's own type
+    CS = {'i32': ('int', -2**31, 2**31 - 1), 'u32': ('unsigned', 0, 2**32 - 1), 'i64': ('long long', -2**63, 2**63 - 1),
+          'u64': ('unsigned long long', 0, 2**64 - 1), 'i128': ('vh::I', -2**127, 2**127 - 1), 'u128': ('vh::U', 0, 2**128 - 1)}
+
+    def lit(st, v):
+        ct = CS[st][0]
+        if -2**63 < v < 2**63:
+            return '(%s)(%dLL)' % (ct, v)
+        if v == -2**63:
+            return '(%s)(-%dLL - 1)' % (ct, 2**63 - 1)
+        if 0 <= v < 2**64:
+            return '(%s)(%dULL)' % (ct, v)
+        a = abs(v)
+        e = '((vh::U(%dULL) << 64) | vh::U(%dULL))' % (a >> 64, a & (2**64 - 1))
+        return '(%s)(%s)' % (ct, e) if v > 0 else '(%s)(-vh::I(%s - 1) - 1)' % (ct, e)
+    rndc = random.Random(seed * 911 + 3)
+    cc = []
+    for j, d in enumerate(CT):
+        db = int(d[1:])
+        dlo, dhi = (-2**(db - 1), 2**(db - 1) - 1) if d[0] == 'i' else (0, 2**db - 1)
+        for m, st in enumerate(CS):
+            slo, shi = CS[st][1], CS[st][2]
+            cand = [dhi, dhi + 1, dlo, dlo - 1, -1, 0, slo, shi, dhi // 2, 100, -2000000000, 4000000000, rndc.randint(slo, shi)]
+            vs = []
+            for v in cand:
+                if slo <= v <= shi and v not in vs:
+                    vs.append(v)
+            for n, v in enumerate(vs):
+                for k, tg in enumerate(tags3):
+                    mixed_out = (st[0] != d[0]) and not (dlo <= v <= dhi)
+                    if mixed_out or k == (j + m + n + seed) % 3 or tier == 'thorough':
+                        cc.append('ccvt<%s, %s, %s>();' % (TAGS[tg], CT[d], lit(st, v)))
+    per = 150
+    for i in range(0, len(cc), per):
+        k = i // per
+        res.append(dict(name='%s_ccvt_%d' % (table, k), src=_tu(table, 1300 + i, cc[i:i + per]), compiler='clang++' if k % 3 == 1 else 'g++',
+                        defines=['CNL_VERIF_OVERFLOW_PATH=%d' % (1 + k % 2)]))
     # -- radix-changing scaled conversions, every combination under two of the three tags per seed, both paths
     sx = []
     for i, c in enumerate(SXR):
